@@ -314,7 +314,7 @@ fn block_bytes_of(fam: PFam) -> usize {
 
 /// operation alphabet for the exhaustive short-sequence enumeration around
 /// block boundaries; B = block size in bytes (8 for unbuffered generators)
-fn boundary_alphabet(fam: PFam) -> Vec<Op> {
+pub fn boundary_alphabet(fam: PFam) -> Vec<Op> {
     let b = block_bytes_of(fam);
     let mut v = vec![Op::U32, Op::U64, Op::Fill(0), Op::Fill(1), Op::Fill(3), Op::Fill(4), Op::Fill(5), Op::Fill(8), Op::Fill(12)];
     if b > 8 {
@@ -326,7 +326,7 @@ fn boundary_alphabet(fam: PFam) -> Vec<Op> {
 }
 
 /// every operation sequence of length `len` over the alphabet (index = id)
-fn boundary_sequence(fam: PFam, len: usize, mut id: u64) -> Vec<Op> {
+pub fn boundary_sequence(fam: PFam, len: usize, mut id: u64) -> Vec<Op> {
     let a = boundary_alphabet(fam);
     (0..len).map(|_| { let k = (id % a.len() as u64) as usize; id /= a.len() as u64; a[k].clone() }).collect()
 }
